@@ -51,7 +51,19 @@ def result_cases(mod, fn, rd, params=(), skip_asserts=False):
                 for d in defs:
                     cases.append(Case(d.node, canon_guards(mod, d.stmt, fn, rd, params, skip_asserts) + rg, d.stmt, via_var=v.id))
                 continue
-        cases.append(Case(v, rg, r))
+        # a conditional expression is two cases, each under its side of the test
+        todo = [(v, rg)]
+        while todo:
+            v_, g_ = todo.pop(0)
+            if isinstance(v_, ast.IfExp):
+                txt = canon(v_.test, rd, r, params)
+                try:
+                    parsed = ast.parse(txt, mode="eval").body
+                except SyntaxError:
+                    parsed = v_.test
+                todo = [(v_.body, g_ + [(txt, True, parsed)]), (v_.orelse, g_ + [(txt, False, parsed)])] + todo
+            else:
+                cases.append(Case(v_, g_, r))
     # falling off the end returns None
     if fn.body and not isinstance(fn.body[-1], (ast.Return, ast.Raise)):
         cases.append(Case(None, [], fn.body[-1]))
